@@ -10,14 +10,15 @@ def units():
     for u in eu:
         u.select = r'^eval_g_'
     ns = p_c03.units(select=r'^eval_g_', classes=p_c03.CLASSES[:2])
-    return eu + ns
+    import p_c03n
+    return eu + ns + p_c03n.units('c07')
 
 def run(tier, seed):
     return run_numeric('C07', units(), tier, seed, design_ref='4/C07', api_groups=['grad_forwarders'],
                        explanation='eval_g_* bodies extracted from euler.cpp / cns.cpp: ensures ret == (i==1 ? PHI_x : i==2 ? PHI_y : i==3 ? PHI_z : -1) '
                                    'for the jet PHI of the exact field, int i over its full range, frame = message flag only; '
                                    'masa_eval_grad_* forwarders (masa_core.cpp): exactly one call to eval_g_<same variable>(same args) on the selected object. '
-                                   'The power-law (nsctpl) gradients are covered by the nsctpl unit when present (see functions_under_contract).')
+                                   'Power-law solution: primitive _x/_y/_z == jet components, grad_*(i) == component i (IndexBase 1) or the NaN sentinel, eval_g_* forwarders == grad_* of the named field.')
 
 def replay(path):
     p = json.load(open(path))
